@@ -682,7 +682,9 @@ pub async fn start_replication_thread(
                                     op_log_id_in,
                                 )
                             })
-                            .fold(Ok(0), |y, x| match (y, x) {
+                            // (the id of the operation, not 0: every snapshot would otherwise be
+                            // registered as the same pending operation)
+                            .fold(Ok(op_log_id_in), |y, x| match (y, x) {
                                 (Ok(id), Ok(_)) => Ok(id),
                                 (Err(e), _) => Err(e),
                                 (_, Err(e)) => Err(e),
